@@ -69,7 +69,7 @@ POOL = [
     {"fA|startswith": "v0"},
     {"fA": None},
     {"fA|re": "v.*"},
-    {"fB": "V9x", "win.x": "v0"},
+    {"fB": "V9x", "win.nix": "v0"},
     {"win.darwin.y": "", "f.f": ["", "v0"]},
     ["100%\\*", "\\*x\\?", "*k*"],
     {"Hashes|contains": ["MD5=" + H32A, "SHA1=" + H40], "fB": "v2"},
